@@ -121,6 +121,15 @@ pub fn c02(v: &View, out: &mut Vec<String>) {
     if last.start != len {
         out.push("eof.not-at-end".into());
     }
+    // the same in character coordinates (what Python and editors index by): character starts
+    // never decrease and the EOF token sits at the number of characters of the text
+    let nchars = v.src.chars().count() as u32;
+    if last.cstart != nchars {
+        out.push("eof.char-offset-not-at-end".into());
+    }
+    if v.toks.windows(2).any(|w| w[1].cstart < w[0].cstart) || v.toks.iter().any(|t| t.cstart > nchars) {
+        out.push("tiling.char-start-decreases-or-beyond-end".into());
+    }
     // concatenation of raw texts == source after the BOM
     let mut cat = String::with_capacity(v.src.len());
     for i in 0..n {
